@@ -185,6 +185,17 @@ func c03StageRefs(c *Ctx) error {
 			add(m, []byte(s))
 		}
 	}
+	// every row of the live html.EntitiesMap, in text and attribute context, alone and followed by text
+	c03Init()
+	for _, name := range c03EntNames {
+		for m := 0; m < 2; m++ {
+			add(m, []byte("&"+name+";"))
+			add(m, []byte("a&"+name+";b=1"))
+		}
+	}
+	if c.Search { // a proof or the translator is broken: widen the sweep
+		n *= 5
+	}
 	for i := 0; i < n; i++ {
 		r := c.Rng.Fork()
 		raw := c03GenRefText(r, r.Chance(10))
@@ -468,6 +479,9 @@ func init() {
 		var docs [][]byte
 		var names []string
 		n := c.N(1500, 40000)
+		if c.Search {
+			n *= 4
+		}
 		for i := 0; i < n; i++ {
 			r := c.Rng.Fork()
 			d := c03GenDoc(r, r.Chance(50))
@@ -478,7 +492,8 @@ func init() {
 		docs = append(docs, cd...)
 		names = append(names, cn...)
 		tn, td := c03TestInputs(c.Repo)
-		if err := c03StageLoop(c, append(append([][]byte{}, docs...), td...), append(append([]string{}, names...), tn...)); err != nil {
+		xn, xd := c03ContextDocs(c)
+		if err := c03StageLoop(c, append(append(append([][]byte{}, docs...), td...), xd...), append(append(append([]string{}, names...), tn...), xn...)); err != nil {
 			return err
 		}
 		if err := c03ReplayKnown(c); err != nil {
